@@ -2,7 +2,7 @@
 //!  hf io <cases.ndjson> <out.ndjson>      : IoLayer cases against ruzstd::io of this build
 //!  hf progs <frames.json> <inputs.json> <out.ndjson> : decode every frame, compress every input; one record each
 use ruzstd::decoding::{BlockDecodingStrategy, FrameDecoder, StreamingDecoder};
-use ruzstd::encoding::{compress_to_vec, CompressionLevel};
+use ruzstd::encoding::{compress_to_vec, CompressionLevel, FrameCompressor, MatchGeneratorDriver};
 use ruzstd::io::{Error, Read, Write};
 use serde_json::{json, Value};
 use std::io::{BufRead, Write as _};
@@ -199,6 +199,29 @@ fn progs(frames: &str, inputs: &str, out: &str) {
             serde_json::to_writer(&mut w, &json!({"kind": "compress", "name": i["name"], "level": lname, "frame": hex(&frame)})).unwrap();
             w.write_all(b"\n").unwrap();
         }
+    }
+    // one compressor reused over all inputs: each input twice in a row at level Fastest, then a pass with mixed levels
+    let datas: Vec<(String, Vec<u8>)> = ij["inputs"].as_array().unwrap().iter().map(|i| (i["name"].as_str().unwrap().to_string(), unhex(i["hex"].as_str().unwrap()))).collect();
+    let mut order: Vec<(usize, bool)> = vec![];
+    for i in 0..datas.len() {
+        order.push((i, true));
+        order.push((i, true));
+    }
+    for i in 0..datas.len() {
+        order.push((i, i % 3 != 2));
+    }
+    let mut comp: FrameCompressor<&[u8], Vec<u8>, MatchGeneratorDriver> = FrameCompressor::new(CompressionLevel::Fastest);
+    for (k, (i, fast)) in order.iter().enumerate() {
+        let (name, data) = &datas[*i];
+        comp.set_compression_level(if *fast { CompressionLevel::Fastest } else { CompressionLevel::Uncompressed });
+        comp.set_source(&data[..]);
+        comp.set_drain(Vec::new());
+        comp.compress();
+        let frame = comp.take_drain().unwrap();
+        let mut o = Vec::with_capacity(data.len() + 16);
+        let ok = FrameDecoder::new().decode_all_to_vec(&frame, &mut o).is_ok() && o == *data;
+        serde_json::to_writer(&mut w, &json!({"kind": "compress", "name": format!("reuse{k}_{name}"), "level": if *fast { "fastest" } else { "uncompressed" }, "frame": hex(&frame), "roundtrip": ok})).unwrap();
+        w.write_all(b"\n").unwrap();
     }
     w.flush().unwrap();
 }
